@@ -21,6 +21,13 @@ wire), and no XOR-combination of any number of them yields R.
 The negative results (streaming mode restarts the tweak counter per
 instruction; sha2pc sends both labels of its output wires) follow.
 
+Streaming mode, gate by gate: the gate loop is stated for an arbitrary per-kind
+tweak accounting (`Model/TweakAcc.lean`); every SAFE accounting — the code's is
+one — keeps the offset out of the span of the evaluator's view of any stream of
+instruction circuits (`C04_stream_safe_accounting`,
+`C04_stream_no_two_labels_of_a_wire`), and an accounting that reserves no tweak
+for the unary gate leaks it (`C04_inv_zero_tweak_stream_leaks`).
+
 Last section: a garbler PROCESS that serves several overlapping sessions on one
 shared circuit value, the garbling scratch of all of them drawn from that
 circuit's pool (`Model/GarblerProc.lean` on top of the ownership model of C17 /
@@ -40,6 +47,7 @@ import MpcVerif.Proofs.Proto2
 import MpcVerif.Proofs.SymProc
 import MpcVerif.Proofs.GarblerProc
 import MpcVerif.Proofs.PoolGarble
+import MpcVerif.Proofs.SymAcc
 
 namespace Mpc.Sym
 open Mpc LabelAlg
@@ -331,6 +339,243 @@ theorem C04_stream_is_whole {L : Type} [LabelAlg L] (H : Hash L) (r : L)
     (steps : List (List Gate)) (ws : Store (WireL L)) (id : Nat) :
     streamGarble H r true steps ws id = garbleGates H r steps.flatten ws id :=
   streamGarble_persistent H r steps ws id
+
+/-! ### Per-kind tweak accounting of the streamed gate loop
+
+`Model/TweakAcc.lean`: a gate garbled at counter value `id` hashes under the
+tweaks `op.uses id` (`Op.queries`: AND two, OR / INV one, free gates none —
+`garbleCore_queries_only`), then the counter advances by `tw op`.  The code's
+accounting is `codeAcc = Op.tweaks` (AND 2, OR 1, INV 1), tied to the real
+streaming garbler by the op line `c04acc` (the tweaks under which every
+transmitted row of real sessions was hashed, re-derived from the stream by the
+harness, against `tweakUses codeAcc`), and to `Streaming.garbleGate` byte for
+byte by C05's stream correspondence (op line `codec` of `Driver/C05.lean`:
+`Stream.streamGarbleGate` advances by the same `Op.tweaks`); for whole-circuit
+mode `garbleGate` is tied byte for byte by the session op lines of C01 / C02.
+
+What the property needs from the accounting is `TweakAcc.Safe` (no kind uses
+more tweaks than it reserves): then no tweak is used by two gates
+(`C04_safe_accounting_tweaks_distinct`) and the offset is not in the span of the
+streaming evaluator's view, for every stream of instruction circuits
+(`C04_stream_safe_accounting`).  What happens otherwise is exhibited for the
+unary gate: the pad of an INV gate is the half-gate hash of its input label
+(`hashOf_unary`: `encrypt(a, 0, t)` hashes the block `2a ⊕ t`, as
+`encryptHalf(a, t)` does), so an INV gate that leaves the counter where it was
+shares its tweak with the next gate, and if that is an AND gate on the same
+wire their first rows XOR to the offset or are equal, according to the permute
+bit of the AND's other input (`C04_unary_tweak_shared_leaks`,
+`C04_inv_zero_tweak_stream_leaks`). -/
+
+/-- With the code's accounting the accounted loop IS `garbleGates`, so
+`C04_whole_circuit` and `C04_stream_is_whole` speak about it. -/
+theorem C04_code_accounting_is_garbleGates {L : Type} [LabelAlg L] (H : Hash L) (r : L)
+    (steps : List (List Gate)) (ws : Store (WireL L)) (id : Nat) :
+    streamGarbleAcc H r codeAcc steps ws id = streamGarble H r true steps ws id := by
+  rw [streamGarbleAcc_flatten, garbleGatesAcc_code, streamGarble_persistent]
+
+/-- **No tweak twice under a safe accounting**: the tweaks under which the
+gates of ANY stream hash are strictly increasing in stream order; in
+particular for the code's accounting. -/
+theorem C04_safe_accounting_tweaks_distinct (tw : TweakAcc) (hs : tw.Safe) (ops : List Op) (id : Nat) :
+    (tweakUses tw ops id).Pairwise (· < ·) ∧ (tweakUses codeAcc ops id).Pairwise (· < ·) :=
+  ⟨tweakUses_sorted tw hs ops id, tweakUses_sorted codeAcc codeAcc_safe ops id⟩
+
+/-- Non-vacuity / executed: the code's accounting is safe; the constant-wire
+prologue of `circuits.Compiler.ZeroWire` (INV, then AND) uses three different
+tweaks under it, and one tweak twice under an accounting that reserves nothing
+for INV, which is not safe. -/
+example : codeAcc.Safe ∧ tweakUses codeAcc [.inv, .and, .or] 7 = [7, 8, 9, 10] ∧
+    tweakUses (fun op => if op = .inv then 0 else op.tweaks) [.inv, .and, .or] 7 = [7, 7, 8, 9] ∧
+    ¬ TweakAcc.Safe (fun op => if op = .inv then 0 else op.tweaks) := by decide
+
+/-- The row an INV gate transmits: the two pads and the offset. -/
+theorem inv_row {L : Type} [LabelAlg L] (H : Hash L) (r : L) (hr : sbit r = true) (a b : WireL L)
+    (id : Nat) (ha : a.l1 = a.l0 ^^^ r) :
+    (garbleCore H r .inv a b id).2 =
+      [H.h2 a.l0 LabelAlg.zero id ^^^ H.h2 a.l1 LabelAlg.zero id ^^^ r] := by
+  have hs : sbit a.l1 = !sbit a.l0 := by rw [ha, sbit_xor', hr]; cases sbit a.l0 <;> rfl
+  cases h0 : sbit a.l0 <;>
+    simp [garbleCore, idxUnary, Tab.set, h0, hs, xor_assoc', xor_comm', xor_left_comm']
+
+/-- **A shared tweak between an INV gate and an AND gate on the same wire.**
+In ANY label algebra, for any hash whose unary pad is the half-gate hash (the
+code's: `hashOf_unary`): the row of `INV(a)` and the first row of `AND(a, b)`
+garbled under the SAME tweak XOR to the offset when the permute bit of `b` is 0
+and are equal when it is 1. -/
+theorem C04_unary_tweak_shared_leaks {L : Type} [LabelAlg L] (H : Hash L)
+    (hu : ∀ x t, H.h2 x LabelAlg.zero t = H.h1 x t)
+    (r : L) (hr : sbit r = true) (a b b' : WireL L) (ha : a.l1 = a.l0 ^^^ r) (id : Nat)
+    (ri tg te : L) (hi : (garbleCore H r .inv a b' id).2 = [ri])
+    (hg : (garbleCore H r .and a b id).2 = [tg, te]) :
+    ri ^^^ tg = if sbit b.l0 then LabelAlg.zero else r := by
+  rw [inv_row H r hr a b' id ha] at hi
+  simp only [garbleCore, List.cons.injEq, and_true] at hi hg
+  obtain ⟨hg, _⟩ := hg
+  subst hi hg
+  simp only [hu]
+  cases sbit b.l0 <;> simp [xor_comm', xor_left_comm']
+
+/-- The same for the hash of the code (`circuit/garble.go`: `encrypt`,
+`encryptHalf`) under ANY block function — AES under any session key — with all
+hypotheses discharged: for every offset with the select bit set, every pair of
+wires `a = (x, x ⊕ r)`, `b = (y, y ⊕ r)` and every tweak. -/
+theorem C04_unary_tweak_shared_leaks_aes (π : BitVec 128 → BitVec 128) (r x y : BitVec 128)
+    (hr : r.msb = true) (id : Nat) :
+    ∃ ri tg te, (garbleCore (hashOf π) r .inv ⟨x, x ^^^ r⟩ ⟨y, y ^^^ r⟩ id).2 = [ri] ∧
+      (garbleCore (hashOf π) r .and ⟨x, x ^^^ r⟩ ⟨y, y ^^^ r⟩ id).2 = [tg, te] ∧
+      ri ^^^ tg = if y.msb then 0#128 else r := by
+  have hi := inv_row (hashOf π) r hr ⟨x, x ^^^ r⟩ ⟨y, y ^^^ r⟩ id rfl
+  exact ⟨_, _, _, hi, rfl,
+    C04_unary_tweak_shared_leaks (hashOf π) (hashOf_unary π) r hr ⟨x, x ^^^ r⟩ ⟨y, y ^^^ r⟩ ⟨y, y ^^^ r⟩
+      rfl id _ _ _ hi rfl⟩
+
+/-- **An accounting that reserves no tweak for INV leaks in streaming mode.**
+Any stream containing the instruction circuit `w := INV(a); z := AND(a, b)`
+(the constant-wire prologue of `circuits.Compiler.ZeroWire` is this with
+`b = w`): the INV row and the first AND row, both transmitted, XOR to the
+offset whenever the permute bit of `b` is 0. -/
+theorem C04_inv_zero_tweak_stream_leaks {L : Type} [LabelAlg L] (H : Hash L)
+    (hu : ∀ x t, H.h2 x LabelAlg.zero t = H.h1 x t) (r : L) (hr : sbit r = true)
+    (tw : TweakAcc) (htw : tw .inv = 0) (ws : Store (WireL L)) (id a w b z : Nat) (hwa : w ≠ a)
+    (ha : (ws.get a).l1 = (ws.get a).l0 ^^^ r)
+    (hpb : sbit ((ws.set w (garbleCore H r .inv (ws.get a) (ws.get 0) id).1).get b).l0 = false)
+    (ri tg te : L)
+    (hrows : (streamGarbleAcc H r tw [[⟨.inv, a, 0, w⟩, ⟨.and, a, b, z⟩]] ws id).2.2 = [[ri], [tg, te]]) :
+    ri ^^^ tg = r := by
+  have h0 : (ws.set w (garbleCore H r .inv (ws.get a) (ws.get 0) id).1).get a = ws.get a :=
+    Store.get_set_ne _ _ _ _ hwa
+  simp only [streamGarbleAcc, garbleGatesAcc, htw, Nat.add_zero, h0, List.append_nil,
+    List.cons.injEq, and_true] at hrows
+  obtain ⟨h1, h2⟩ := hrows
+  have := C04_unary_tweak_shared_leaks H hu r hr (ws.get a) _ (ws.get 0) ha id ri tg te h1 h2
+  rw [this, hpb]
+  rfl
+
+/-- Non-vacuity of `C04_inv_zero_tweak_stream_leaks` with the code's hash under
+any block function: wires `0 = (x, x ⊕ r)`, `1 = (y, y ⊕ r)` with permute bit 0,
+the stream `w2 := INV(w0); w3 := AND(w0, w1)`, no tweak reserved for INV: two
+transmitted rows XOR to the offset. -/
+example (π : BitVec 128 → BitVec 128) (r x y : BitVec 128) (hr : r.msb = true) (hy : y.msb = false) :
+    ∃ ri tg te,
+      (streamGarbleAcc (hashOf π) r (fun op => if op = .inv then 0 else op.tweaks)
+        [[⟨.inv, 0, 0, 2⟩, ⟨.and, 0, 1, 3⟩]]
+        #[⟨x, x ^^^ r⟩, ⟨y, y ^^^ r⟩, default, default] 0).2.2 = [[ri], [tg, te]] ∧ ri ^^^ tg = r := by
+  obtain ⟨ri, tg, te, h⟩ : ∃ ri tg te,
+      (streamGarbleAcc (hashOf π) r (fun op => if op = .inv then 0 else op.tweaks)
+        [[⟨.inv, 0, 0, 2⟩, ⟨.and, 0, 1, 3⟩]]
+        #[⟨x, x ^^^ r⟩, ⟨y, y ^^^ r⟩, default, default] 0).2.2 = [[ri], [tg, te]] := ⟨_, _, _, rfl⟩
+  exact ⟨ri, tg, te, h, C04_inv_zero_tweak_stream_leaks (hashOf π) (hashOf_unary π) r hr _ rfl
+    #[⟨x, x ^^^ r⟩, ⟨y, y ^^^ r⟩, default, default] 0 0 2 1 3 (by decide) rfl hy ri tg te h⟩
+
+/-- Initial wire store of a stream: input wire `i < nIn` carries the fresh pair
+`(inl i, inl i ⊕ r)` (`NewStreaming`: `makeLabels` per input wire). -/
+def streamStore {L : Type} [LabelAlg L] (n nIn : Nat) (r : L) (inl : Nat → L) : Store (WireL L) :=
+  (Array.range n).map fun i => if i < nIn then ⟨inl i, inl i ^^^ r⟩ else default
+
+/-- The evaluator's view of a streaming session (labels only): every
+transmitted row of every streamed gate, and ONE label per input wire (the
+garbler's own in the clear, the evaluator's through the OT) for the input bits
+`xy`. -/
+def streamView {L : Type} [LabelAlg L] (rows : List (List L)) (ws0 : Store (WireL L)) (nIn : Nat)
+    (xy : List Bool) : List L :=
+  rows.flatten ++ (List.range nIn).map fun i => (ws0.get i).labelFor (xy.getD i false)
+
+/-- **C04 for streaming mode, for every safe accounting.**  Any stream of
+instruction circuits over one wire store (`n` wires, the first `nIn` are the
+two parties' input wires; wires may be overwritten, as the streaming allocator
+does), all inputs, every `σ`, every hash model of the family, and EVERY
+accounting that reserves for each gate kind at least the tweaks it uses: a
+linear functional is 1 on the offset and 0 on every row of the stream and on
+the one label per input wire the evaluator holds. -/
+theorem C04_stream_safe_accounting (σ : Atom Code → Bool) (hσ : σ .R = true) (code : SymL Code → Code)
+    (hsep : Separates σ code) (tw : TweakAcc) (hs : tw.Safe) (n nIn : Nat) (hn : nIn ≤ n)
+    (steps : List (List Gate)) (hwf : wfFrom n steps.flatten (fun w => decide (w < nIn)) = true)
+    (xy : List Bool) :
+    let ws0 := streamStore n nIn (symR σ) (symInl σ)
+    ∃ S : List (Atom Code), phi S (symR σ) = true ∧
+      ∀ t ∈ streamView (streamGarbleAcc (symHash σ code) (symR σ) tw steps ws0 0).2.2 ws0 nIn xy,
+        phi S t = false := by
+  intro ws0
+  have hs' : ∀ op : Op, op.tweaks ≤ tw op := by
+    intro op; have := hs op; cases op <;> exact this
+  let pv0 := initStore n false (xy.take nIn)
+  let D0 : Nat → Bool := fun w => decide (w < nIn)
+  have hget : ∀ w, w < nIn → ws0.get w = ⟨symInl σ w, symInl σ w ^^^ symR σ⟩ := by
+    intro w hw
+    simp only [ws0, streamStore]
+    rw [get_range_map' _ _ _ (by omega)]
+    simp [hw]
+  have hphi0 : ∀ w, w < nIn → phi (S0 nIn xy) (symInl σ w) = xy.getD w false := by
+    intro w hw
+    simp only [S0, symInl, phi_cons, atom_f]
+    rw [phi_inputs]
+    have h2 : ¬ (Atom.R : Atom Code) = Atom.inp w := by intro h; cases h
+    simp [h2, hw]
+  have hinv0 : InvS σ D0 ws0 pv0 0 (S0 nIn xy) := by
+    refine ⟨?_, ?_, ?_⟩
+    · intro w hw
+      simp only [D0, decide_eq_true_eq] at hw
+      rw [hget w hw]
+      refine ⟨rfl, ?_, Below.atom σ _ 0 (by intro t h; cases h)⟩
+      simp only [pv0, initStore]
+      rw [get_range_map' _ _ _ (by omega), hphi0 w hw]
+      simp [List.getD, hw]
+    · intro a ha t hat
+      simp only [S0, List.mem_cons, List.mem_map] at ha
+      rcases ha with h | ⟨i, _, h⟩
+      · subst h; cases hat
+      · subst h; cases hat
+    · simp only [S0, symR, phi_cons, atom_f, phi_inputs_R]
+      simp
+  obtain ⟨hrows, hinv, hstab, _⟩ := gates_phi_acc σ hσ code hsep tw hs' n steps.flatten D0
+    ws0 pv0 0 (S0 nIn xy) (by simp [ws0, streamStore]) (by simp [pv0, initStore]) hwf hinv0
+  refine ⟨phiGatesAcc σ code tw steps.flatten ws0 pv0 0 (S0 nIn xy), hinv.2.2, ?_⟩
+  intro t ht
+  simp only [streamView, List.mem_append, List.mem_flatten, List.mem_map, List.mem_range] at ht
+  rcases ht with ⟨rows, hr, htr⟩ | ⟨i, hi, rfl⟩
+  · rw [streamGarbleAcc_flatten] at hr
+    exact hrows rows hr t htr
+  · rw [hget i hi]
+    have hB : Below 0 (symInl σ i) := Below.atom σ _ 0 (by intro t h; cases h)
+    cases hb : xy.getD i false with
+    | false =>
+      simp only [WireL.labelFor, Bool.false_eq_true, if_false]
+      rw [hstab _ hB, hphi0 i hi, hb]
+    | true =>
+      simp only [WireL.labelFor, if_true]
+      rw [phi_xor, hstab _ hB, hphi0 i hi, hb, hinv.2.2]
+      rfl
+
+/-- Streaming mode as the code runs it (the code's accounting, the streamed
+loop = `streamGarble … true`): the offset is not transmitted, no two values of
+the evaluator's view differ by it, no XOR of any number of them is the offset. -/
+theorem C04_stream_no_two_labels_of_a_wire (σ : Atom Code → Bool) (hσ : σ .R = true)
+    (code : SymL Code → Code) (hsep : Separates σ code) (n nIn : Nat) (hn : nIn ≤ n)
+    (steps : List (List Gate)) (hwf : wfFrom n steps.flatten (fun w => decide (w < nIn)) = true)
+    (xy : List Bool) :
+    let ws0 := streamStore n nIn (symR σ) (symInl σ)
+    let V := streamView (streamGarble (symHash σ code) (symR σ) true steps ws0 0).2.2 ws0 nIn xy
+    ¬ InSpan (fun t => t ∈ V) (symR σ) ∧ (∀ t ∈ V, t ≠ symR σ) ∧
+      (∀ t ∈ V, ∀ u ∈ V, t ^^^ u ≠ symR σ) := by
+  intro ws0 V
+  obtain ⟨S, hR, hT⟩ := C04_stream_safe_accounting σ hσ code hsep codeAcc codeAcc_safe n nIn hn steps hwf xy
+  rw [C04_code_accounting_is_garbleGates] at hT
+  have hns : ¬ InSpan (fun t => t ∈ V) (symR σ) := by
+    intro hspan
+    have := phi_span S _ hT _ hspan
+    rw [hR] at this
+    cases this
+  refine ⟨hns, ?_, ?_⟩
+  · intro t ht heq
+    exact hns (heq ▸ InSpan.mem (T := fun t => t ∈ V) ht)
+  · intro t ht u hu heq
+    exact hns (heq ▸ InSpan.xor (InSpan.mem (T := fun t => t ∈ V) ht) (InSpan.mem hu))
+
+/-- Non-vacuity of the two theorems: a well-formed stream of two instruction
+circuits on five wires (the constant-wire prologue on input wire 0, then an OR
+that overwrites nothing), a safe accounting other than the code's. -/
+example : wfFrom 5 [[⟨.inv, 0, 0, 2⟩, ⟨.and, 0, 2, 3⟩], [⟨.or, 3, 1, 4⟩]].flatten (fun w => decide (w < 2)) = true ∧
+    TweakAcc.Safe (fun _ => 3) ∧ codeAcc.Safe := by decide
 
 /-- sha2pc round 3 (`OutputHints`) transmits both labels of every output
 wire: in any label algebra their XOR is the offset. -/
